@@ -22,6 +22,7 @@ PLAN = [
     ("thr_driver", "plain", ()),
     ("thr_driver", "tsan", ()),
     ("rd_driver", "asan", ()),
+    ("dec_driver", "asan", ()),
 ]
 
 
@@ -30,6 +31,7 @@ def main():
         if (vlib.HARNESS / f"{name}.cpp").exists():
             vlib.build_driver(name, flavor, defs)
     vlib.build_tools("plain")
+    vlib.build_tools("asan")
     print("setup ok")
     return 0
 
